@@ -3,5 +3,5 @@ CONSTANTS DBits = 1
           N = 5
           ByteBits = 1
           CarryVals = "all"
-INVARIANTS MulOK MidOK DivOK RoundDivOK CountOK FmtOK ConvOK
+INVARIANTS MulOK MidOK DivOK RoundDivOK ShiftWrapOK CountOK FmtOK ConvOK
 CHECK_DEADLOCK FALSE
